@@ -98,6 +98,10 @@ def render(spec, cls_suffix=""):
         for nm, v in spec["validators"].items():
             if prov in v["providers"]:
                 body += _validator_def(nm, v, prov)
+        if prov != "model" and spec.get("eq_listeners"):
+            # distinct listener objects that compare (and hash) equal, e.g. value objects
+            body += ["    def __eq__(self, other):", "        return getattr(other, '_eqkey', None) == 'same'",
+                     "    def __hash__(self):", "        return 7", "    _eqkey = 'same'"]
         L += body or ["    pass"]
         L.append("")
     strict = spec["opts"].get("strict")
